@@ -89,6 +89,8 @@ impl IcmpForwarder {
                 .unwrap()
                 .recv_message_queue_capacity,
         );
+        #[cfg(trusttunnel_verif)]
+        crate::verif::icmp::register_client(&tx);
         let shared = Arc::new(PipeShared {
             forwarder_shared: self.shared.clone(),
         });
@@ -127,15 +129,35 @@ impl IcmpForwarder {
                         "Failed to extract echo request, dropping message: peer={}, message={:?}",
                         peer, reply
                     );
+                    #[cfg(trusttunnel_verif)]
+                    crate::verif::icmp::hook_dropped("not-a-response", Some(peer), Some(&reply), None, None);
                     continue;
                 }
                 Some(x) => x,
             };
 
             let mut listeners = self.shared.listeners.lock().unwrap();
+            #[cfg(trusttunnel_verif)]
+            let verif_reply = (
+                peer,
+                reply.type_id(),
+                reply.code(),
+                listeners
+                    .reply_waiters
+                    .get(&request)
+                    .map(|w| crate::verif::icmp::client_of(&w.waker_tx)),
+            );
             match listeners.reply_waiters.get(&request) {
                 None => {
                     debug!("Reply waiter not found: peer={}, reply={:?}", peer, reply);
+                    #[cfg(trusttunnel_verif)]
+                    crate::verif::icmp::hook_dropped(
+                        "no-waiter",
+                        Some(peer),
+                        Some(&reply),
+                        Some(&request),
+                        Some(listeners.reply_waiters.len()),
+                    );
                     continue;
                 }
                 Some(ReplyWaiter { waker_tx, .. }) => match waker_tx.try_send((peer, reply)) {
@@ -154,6 +176,16 @@ impl IcmpForwarder {
                     }
                 },
             }
+            #[cfg(trusttunnel_verif)]
+            crate::verif::icmp::hook_routed(
+                verif_reply.3.unwrap_or(-1),
+                verif_reply.0,
+                verif_reply.1,
+                verif_reply.2,
+                &request,
+                listeners.reply_waiters.contains_key(&request),
+                listeners.reply_waiters.len(),
+            );
         }
     }
 
@@ -214,6 +246,16 @@ impl IcmpForwarder {
             for deadline in expired {
                 if let Some(requests) = listeners.deadlines.remove(&deadline) {
                     for request in requests {
+                        #[cfg(trusttunnel_verif)]
+                        crate::verif::icmp::hook_waiter_expire(
+                            &request,
+                            listeners
+                                .reply_waiters
+                                .get(&request)
+                                .map(|w| (&w.waker_tx, w.original_peer)),
+                            deadline,
+                            listeners.reply_waiters.len(),
+                        );
                         if let Some(waiter) = listeners.reply_waiters.remove(&request) {
                             debug!(
                                 "Request expired: peer={} request={:?}",
@@ -239,6 +281,8 @@ impl IcmpForwarder {
                         e,
                         utils::hex_dump(&packet)
                     );
+                    #[cfg(trusttunnel_verif)]
+                    crate::verif::icmp::hook_dropped("malformed", Some(peer), None, None, None);
                     continue;
                 }
             }
@@ -253,6 +297,8 @@ impl IcmpForwarder {
                     Ok(x) => break Ok((peer, icmp_utils::Message::from(x))),
                     Err(e) => {
                         debug!("Dropping malformed ICMPv6 message: {:?}", e);
+                        #[cfg(trusttunnel_verif)]
+                        crate::verif::icmp::hook_dropped("malformed", Some(peer), None, None, None);
                         continue;
                     }
                 }
@@ -351,6 +397,8 @@ impl datagram_pipe::Sink for IcmpSink {
         socket
             .send_to(datagram.meta.peer, datagram.ttl, &serialized)
             .await?;
+        #[cfg(trusttunnel_verif)]
+        crate::verif::icmp::hook_echo_sent(&self.tx, datagram.meta.peer, datagram.ttl, &serialized);
 
         let deadline = Instant::now()
             + forwarder_shared
@@ -360,6 +408,11 @@ impl datagram_pipe::Sink for IcmpSink {
                 .unwrap()
                 .request_timeout;
         let mut listeners = forwarder_shared.listeners.lock().unwrap();
+        #[cfg(trusttunnel_verif)]
+        let verif_prev = listeners
+            .reply_waiters
+            .get(echo)
+            .map(|w| crate::verif::icmp::client_of(&w.waker_tx));
         listeners.reply_waiters.insert(
             echo.clone(),
             ReplyWaiter {
@@ -379,6 +432,16 @@ impl datagram_pipe::Sink for IcmpSink {
                 e.get_mut().push_back(echo.clone());
             }
         }
+        #[cfg(trusttunnel_verif)]
+        crate::verif::icmp::hook_waiter_insert(
+            &self.tx,
+            verif_prev,
+            echo,
+            datagram.meta.peer,
+            deadline,
+            listeners.reply_waiters.len(),
+            listeners.deadlines.len(),
+        );
 
         Ok(datagram_pipe::SendStatus::Sent)
     }
@@ -455,5 +518,38 @@ impl Drop for RawPacketStream {
                 debug!("Failed to close socket: {}", io::Error::last_os_error());
             }
         }
+    }
+}
+
+#[cfg(trusttunnel_verif)]
+impl IcmpForwarder {
+    /// Snapshot of the waiter table (verification accessor)
+    pub(crate) fn verif_waiters(&self) -> Vec<crate::verif::icmp::WaiterView> {
+        let listeners = self.shared.listeners.lock().unwrap();
+        listeners
+            .reply_waiters
+            .iter()
+            .map(|(k, w)| crate::verif::icmp::WaiterView {
+                identifier: k.identifier,
+                sequence_number: k.sequence_number,
+                data: k.data.to_vec(),
+                original_peer: w.original_peer,
+                client: crate::verif::icmp::client_of(&w.waker_tx),
+            })
+            .collect()
+    }
+
+    /// (distinct deadlines, queued requests) (verification accessor)
+    pub(crate) fn verif_deadlines(&self) -> (usize, usize) {
+        let listeners = self.shared.listeners.lock().unwrap();
+        (
+            listeners.deadlines.len(),
+            listeners.deadlines.values().map(|l| l.len()).sum(),
+        )
+    }
+
+    pub(crate) async fn verif_sockets_ready(&self) -> (bool, bool) {
+        let s = self.shared.sockets.read().await;
+        (s.v4.is_some(), s.v6.is_some())
     }
 }
